@@ -545,7 +545,7 @@ pub fn main(args: &Args) -> i32 {
     let workers = args.num("--workers").map(|w| w as usize).unwrap_or_else(simcore::par::workers_from_env);
     let runs = args.num("--runs").unwrap_or(match tier {
         Tier::Quick => 400_000,
-        Tier::Thorough => 40_000_000,
+        Tier::Thorough => 200_000_000,
     });
     let det_n = match tier {
         Tier::Quick => 200.min(runs),
